@@ -92,7 +92,16 @@ func (p *poller) addConn(c *Conn) error {
 	if err != nil {
 		p.g.connsUnix[fd] = nil
 		_ = c.closeWithError(err)
+		return err
 	}
+	// Data written before the fd was registered (e.g. in the OnOpen handler)
+	// may have been cached, but the writing event could not be set then.
+	c.mux.Lock()
+	if !c.closed && len(c.writeList) > 0 {
+		c.isWAdded = true
+		_ = p.modWrite(fd)
+	}
+	c.mux.Unlock()
 	return err
 }
 
